@@ -22,7 +22,8 @@ THEOREMS = ['C11_term_preserves_subspace', 'C11_trajectory_in_subspace', 'C11_le
             'C11_sw_mean_thickness_conserved', 'C11_integrators_consistent', 'C11_concrete_consistency_sums',
             'C11_sim_time_advances', 'C11_sim_time_advances_rk4', 'C11_filter_leaves_scalar_leaf',
             'C11_uniform_tracer_vertical', 'C11_uniform_tracer_horizontal', 'C11_uniform_tracer_stays_uniform',
-            'C11_terms_are_the_integrators', 'C11_sim_time_advances_R', 'C11_hyps_satisfiable']
+            'C11_terms_are_the_integrators', 'C11_sim_time_advances_R', 'C11_hyps_satisfiable',
+            'C11_fix_time_trajectory', 'C11_fix_time_round_half_even']
 LEVEL = 'proof'
 LEVEL_TEXT = ('machine-checked theorems (Coq) for every field, every vector space, every step term built from '
               'u, +, scalar *, F, G, G_inv (all integrators of time_integration.py are encoded as such terms, the '
